@@ -93,8 +93,12 @@ def run(ctx):
     for t in range(n):
         cfg = gen_config(rng, [None, "all-at-once", None, "trailing-parallel"][t % 4])
         detach = (t % 3 == 2)
-        res = cr.run(cfg, detach=detach)
-        started, has_end, failed = analyse(ctx, cfg, res, detach, "canvas%s" % ("" if detach else " -d"))
+        # every fourth run the hook command itself exits non-zero: the run must not notice
+        hook_fails = (t % 4 == 1)
+        res = cr.run(cfg, detach=detach, extra_env=dict(VERIF_HOOK_EXIT=str(rng.choice([1, 3, 127]))) if hook_fails else None)
+        started, has_end, failed = analyse(ctx, cfg, res, detach, "canvas%s%s" % ("" if detach else " -d", " with a hook that exits non-zero" if hook_fails else ""))
+        if hook_fails:
+            kinds["failing-hook"] = kinds.get("failing-hook", 0) + 1
         kinds["detached" if detach else "foreground"] = kinds.get("detached" if detach else "foreground", 0) + 1
         distinct.add((tuple(cfg["steps"]), tuple(cfg["skip"]), cfg["ncpu"], detach))
         ids = {s[0]: i + 1 for i, s in enumerate(cfg["steps"])}
